@@ -117,6 +117,8 @@ impl VHDLServer {
 
         self.project
             .update_config(config, &mut self.message_filter());
+        // The files, their libraries and contents may all have changed
+        self.semantic_token_cache.clear();
         self.publish_diagnostics();
     }
 
